@@ -48,4 +48,31 @@ a partition containing Error tokens -/
 example : (lex defaultCfg #[39, 0xD800, 97]).toOption.map (fun ts => ts.map (·.tt)) =
     some [T.Error, T.Error, T.Name] := by decide +kernel
 
+/-- **a leading U+FEFF (byte-order mark) is neither dropped nor duplicated**: for every text that starts with U+FEFF, tokenizing succeeds
+and the token values, concatenated, still start with that U+FEFF followed by exactly the rest (instance of `lex_total_lossless`; pins the
+regression "strip/skip invisible leading characters") -/
+theorem lex_keeps_bom (rest : Text) :
+    ∃ ts, lex defaultCfg (0xFEFF :: rest).toArray = .ok ts ∧ (ts.map (·.val)).flatten = 0xFEFF :: rest := by
+  obtain ⟨ts, h1, h2, _⟩ := lex_total_lossless (0xFEFF :: rest).toArray
+  exact ⟨ts, h1, by simpa using h2⟩
+
+/-- … and the first token is non-empty and starts with the U+FEFF -/
+theorem lex_bom_first_token (rest : Text) :
+    ∃ t ts, lex defaultCfg (0xFEFF :: rest).toArray = .ok (t :: ts) ∧ t.val.head? = some 0xFEFF := by
+  obtain ⟨ts, h1, h2, h3⟩ := lex_total_lossless (0xFEFF :: rest).toArray
+  cases ts with
+  | nil => simp at h2
+  | cons t ts =>
+    refine ⟨t, ts, h1, ?_⟩
+    have hne := h3 t (by simp)
+    cases hv : t.val with
+    | nil => exact absurd hv hne
+    | cons c cs =>
+      simp only [List.map_cons, List.flatten_cons, hv, List.cons_append, List.cons.injEq] at h2
+      simp [h2.1]
+
+/-- executing the model: `\ufeffselect` lexes to an Error token holding the U+FEFF, then the keyword -/
+example : (lex defaultCfg #[0xFEFF, 115, 101, 108, 101, 99, 116]).toOption.map (fun ts => ts.map fun t => (t.tt, t.val.length)) =
+    some [(T.Error, 1), (T.DML, 6)] := by decide +kernel
+
 end Sql.C01
